@@ -8,7 +8,13 @@ Tie: `find_lb`, `find_largest_size_bounded_curvature`, `represent_distance_matri
 called directly on BFS metrics of generated connected graphs, with every `np.random.permutation` /
 `np.random.choice` draw recorded and fed to the model; integer outputs compared exactly.
 [T]/oracle: exhaustive 2*mGH (Lean `mgh.spec` and an independent NumPy brute force) for |X|,|Y| <= 6
-against the real code's outputs; greedy feasibility against exhaustive injections.
+against the real code's outputs; exact constraint search `mgh2_exact` up to 12 vertices; greedy feasibility against
+exhaustive injections.
+What the property observes is the return value of the PUBLIC gromov_hausdorff(A_G, A_H).  The helpers above are private
+and are called here with the harness's own convention: when such a call raises, returns another shape, draws from
+np.random in another way or makes another number of internal calls than the model transcribes, that is a correspondence
+break (`convention_break`): the bracket is evaluated on the public entry point against the best exact oracle, and only
+a failure THERE is claimed as a failing input.
 """
 import itertools, math, warnings
 import numpy as np
@@ -23,7 +29,11 @@ RULE = ("pairs of connected simple graphs from one PRNG: paths, cycles, stars, c
         "and unequal sizes, isomorphic pairs by random relabelling, both argument orders; int8 (as "
         "produced by the real pipeline) and int16/int64 matrices; mapping_sample_size_order from {(0,0),(1,1),(.5,1),"
         "(1,0),(0,1),(-1,-1),(1.5,.5),(2,0)}; the generator state is either seeded NumPy or adversarial draws "
-        "(identity/reversed/random permutations, first image 0 / last / random); non-trivial = both graphs have >= 3 "
+        "(identity/reversed/random permutations, first image 0 / last / random); [T] streams on the public entry point against an exact "
+        "2*mGH: 320 / 3500 pairs of <= 6 vertices (exhaustive), 260 / 2600 pairs dense-X (clique, bipartite, star, lollipop, dense G(n,p)) "
+        "against thin-Y (path, cycle, tree, grid) with |X| >= |Y|, 3..9 vertices, natural and random labellings, both argument orders "
+        "(the Y->X half of the upper bound decides), 140 / 1500 pairs of 5..12 vertices (constraint search), 2500 / 25000 isomorphic "
+        "pairs of 10..15 vertices (2*mGH = 0); non-trivial = both graphs have >= 3 "
         "vertices and are not both cliques; distinct by digest of (op, matrices, order, draws)")
 ASSUMPTIONS = [
     "graphs are connected and simple, so the matrices handed to estimate() are BFS metrics: square, symmetric, zero diagonal, "
@@ -178,6 +188,7 @@ class Draws:
         self.calls = []          # one dict per find_ub_of_min_distortion call: {"perms": [...], "y0s": [...], "n": |X|, "m": |Y|}
         self.loose = {"perms": [], "y0s": []}
         self.bad = []
+        self.unmodelled = []     # draws made in a way the model has no counterpart for (np.random.choice with extra arguments)
 
     def _cur(self):
         return self.calls[-1] if self._depth else self.loose
@@ -204,7 +215,10 @@ class Draws:
 
     def _choice(self, m, *a, **k):
         if a or k:
-            raise common.HarnessError("np.random.choice called with unexpected arguments %r %r" % (a, k))
+            # not the call the model transcribes (`np.random.choice(|Y|)`): let NumPy answer it and mark the recording as
+            # unmodelled; the caller reports a correspondence break and evaluates the property on the public entry point
+            self.unmodelled.append("np.random.choice(%r, *%r, **%r)" % (m, a, k))
+            return self._ochoice(m, *a, **k)
         if self.mode == "numpy":
             y = self._ochoice(m)
         else:
@@ -348,18 +362,102 @@ def bracket_on_real_code(A, B, order, np_seed, mgh2=None):
     return ok, {"lb": lb, "ub": ub, "mGH": mgh2 / 2.0}
 
 
+EXACT_MAX = 9      # largest graph for which `mgh2_exact` (constraint search) is used as the oracle of a confirmation
+
+
+def oracle_for(A, B, iso=False):
+    """(2*mGH, name of the oracle) for a pair of graphs, or (None, None) when no exact value is affordable:
+    isomorphic by construction -> 0; <= 6 vertices -> exhaustive enumeration; <= EXACT_MAX -> exact constraint search"""
+    if iso:
+        return 0, "isomorphic"
+    k = max(len(A), len(B))
+    if k <= 6:
+        return mgh2_brute(metric(A), metric(B)), "mgh2_brute"
+    if k <= EXACT_MAX:
+        return mgh2_exact(metric(A), metric(B)), "mgh2_exact"
+    return None, None
+
+
+def judge_public(A, B, order, np_seed, iso=False):
+    """the property on the PUBLIC entry point gromov_hausdorff(A_G, A_H) with the best exact oracle available;
+    -> (ok, details, replay case)"""
+    mg, oname = oracle_for(A, B, iso)
+    ok, det = bracket_on_real_code(A, B, tuple(order), np_seed, mgh2=mg)
+    if ok and (iso or is_iso_pair(np.asarray(A), np.asarray(B))):
+        ok = det["lb"] == 0.0
+    case = {"AG": np.asarray(A).tolist(), "AH": np.asarray(B).tolist(), "order": [float(x) for x in order], "np_seed": np_seed, "iso": bool(iso)}
+    if oname == "mgh2_exact":
+        case["oracle"] = "mgh2_exact"
+    det = dict(det, oracle=oname or "none at this size (bounds returned, half-integral, ordered)")
+    return ok, det, case
+
+
+def convention_break(ctx, what, corr, A, B, iso, order=(0.0, 0.0), base=None):
+    """a PRIVATE helper called with the harness's own call convention raised, or the code's internal call / RNG pattern is not the
+    one the model transcribes.  None of that is fixed by the property, which observes gromov_hausdorff(A_G, A_H): evaluate the
+    bracket THERE (exact oracle where available); only a failure there is a failing input.  Otherwise a correspondence break,
+    with the full failing-input search run once per kind of break (afterwards only the pair at hand is judged)."""
+    seen = ctx.__dict__.setdefault("_c05_breaks", {})
+    seen[corr] = seen.get(corr, 0) + 1
+    ctx.count("convention_break:" + corr)
+    if sum(1 for _, f in ctx.violations if f) >= 3:          # three failing inputs are on record: enough
+        return True
+    for s in ((0,) if max(len(A), len(B)) > 12 else (0, 1, 2)):
+        ok, det, case = judge_public(A, B, order, s, iso)
+        if not ok:
+            ctx.violation("%s; gromov_hausdorff on the same two graphs (%d and %d vertices) violates the property: %r" % (what, len(A), len(B), det),
+                          dict(case, raised_in=what[:200]), found_input=True, correspondence=corr, detail=det)
+            return True
+    if seen[corr] > 1:
+        return False
+    c = dict(base or {"AG": np.asarray(A).tolist(), "AH": np.asarray(B).tolist()}, public_entry_point=det)
+    return search_failing_input(ctx, what + " [the public gromov_hausdorff brackets the distance on this pair: %r]" % (det,), c, corr, A, B, order)
+
+
+class HelperRaised(Exception):
+    """a private helper of the real module, called with the harness's own convention, raised"""
+
+    def __init__(self, fn, kind):
+        Exception.__init__(self, "%s raised %s" % (fn, kind))
+        self.fn, self.kind = fn, kind
+
+
+def priv(fn, *a, **k):
+    """call a PRIVATE helper of the real module with the harness's convention; any exception becomes HelperRaised, which the
+    callers turn into `convention_break` (the property is then evaluated on the public entry point), never into exit 2"""
+    with np.errstate(all="ignore"):
+        st, v, _ = call(fn, *a, **k)
+    if st == "err":
+        raise HelperRaised(getattr(fn, "__name__", str(fn)), v)
+    return v
+
+
+def iso_lb_nonzero(ctx, what, A, B):
+    """the PRIVATE find_lb gave a non-zero value (or raised) on an isomorphic pair: the clause `isomorphic graphs always receive lower
+    bound 0` is about what gromov_hausdorff returns, so it is confirmed there before anything is claimed"""
+    ok, det, case = judge_public(A, B, (0.0, 0.0), 0, iso=True)
+    if not ok:
+        ctx.violation("isomorphic %d-vertex graphs do not receive lower bound 0 (%s directly; gromov_hausdorff: %r)" % (len(A), what, det),
+                      case, found_input=True, detail=det)
+        return True
+    if not ctx.__dict__.get("_c05_iso_break"):
+        ctx._c05_iso_break = True
+        ctx.violation("%s, called directly, on an isomorphic pair, but gromov_hausdorff on the same pair returns lower bound 0: %r"
+                      % (what, det), dict(case, correspondence="mgh.lb"), found_input=False, correspondence="mgh.lb")
+    return False
+
+
 def code_raised(ctx, fn, kind, A, B, iso, order=(0.0, 0.0)):
-    """a routine of the real code raised on BFS metrics of connected graphs: no bounds are returned, the property fails here"""
-    ctx.violation("%s raised %s on two connected graphs with %d and %d vertices: no bounds are returned" % (fn, kind, len(A), len(B)),
-                  {"AG": np.asarray(A).tolist(), "AH": np.asarray(B).tolist(), "order": list(order), "np_seed": 0, "iso": bool(iso),
-                   "raised_in": fn}, found_input=True)
+    """a routine of the real code, called directly with the harness's convention, raised on BFS metrics of connected graphs"""
+    return convention_break(ctx, "%s, called directly with the harness's own convention, raised %s on two connected graphs with %d and %d "
+                            "vertices" % (fn, kind, len(A), len(B)), "mgh.call:" + fn.split(" ")[0], A, B, iso, order)
 
 
 def search_failing_input(ctx, what, case, corr, A=None, B=None, order=None, extra=None):
-    """the correspondence broke: look for an input on which the bracket property itself fails on the real code"""
+    """the correspondence broke: look for an input on which the bracket property itself fails on the real PUBLIC entry point"""
     r = ctx.rng
     cands = []
-    if A is not None and len(A) <= 6 and len(B) <= 6:
+    if A is not None and max(len(A), len(B)) <= EXACT_MAX:
         for s in range(4):
             cands.append((np.array(A), np.array(B), tuple(order or (0.5, 1.0)), s))
     for _ in range(ctx.n(150, 600)):
@@ -384,12 +482,9 @@ def search_failing_input(ctx, what, case, corr, A=None, B=None, order=None, extr
                           correspondence=corr, detail=det)
             return True
     for X, Y, o, s in cands:
-        ok, det = bracket_on_real_code(X, Y, o, s)
-        if ok and is_iso_pair(X, Y):
-            ok = det["lb"] == 0.0
+        ok, det, rc = judge_public(X, Y, o, s)
         if not ok:
-            ctx.violation("%s; the bracket property fails on the real code: %r" % (what, det),
-                          {"AG": X.tolist(), "AH": Y.tolist(), "order": list(o), "np_seed": s}, found_input=True,
+            ctx.violation("%s; the bracket property fails on the real code: %r" % (what, det), rc, found_input=True,
                           correspondence=corr, detail=det)
             return True
     if not hasattr(ctx, "_c05_lbsearch"):            # once per run: a wide search on the lower bound alone (cheap: no mappings)
@@ -405,17 +500,23 @@ def search_failing_input(ctx, what, case, corr, A=None, B=None, order=None, extr
             st, lb, _ = call(g.find_lb, DX, DY)
             if st != "ok":
                 continue
-            if int(lb) > 0 and int(lb) > mgh2_exact(DX, DY):
-                ctx._c05_lbsearch = (X, Y)
-                break
+            try:
+                lbi = int(lb)
+            except (TypeError, ValueError):          # find_lb is private: another return convention is not the property's business
+                continue
+            if lbi > 0 and lbi > mgh2_exact(DX, DY):
+                # a candidate from the private helper: CONFIRMED below on the public entry point against the same exact oracle
+                # (graphs of 7-8 vertices included: `mgh2_exact`, recorded in the replay case so that replay re-evaluates it)
+                ok, det, rc = judge_public(X, Y, (0.5, 1.0), 0)
+                ctx.count("lbsearch_candidates")
+                if not ok:
+                    ctx._c05_lbsearch = (det, rc)
+                    break
     if ctx._c05_lbsearch is not None:
-        X, Y = ctx._c05_lbsearch
-        ok, det = bracket_on_real_code(X, Y, (0.5, 1.0), 0)
-        if not ok:
-            ctx.violation("%s; the lower bound exceeds the exact distance on the real code: %r" % (what, det),
-                          {"AG": np.asarray(X).tolist(), "AH": np.asarray(Y).tolist(), "order": [0.5, 1.0], "np_seed": 0}, found_input=True,
-                          correspondence=corr, detail=det)
-            return True
+        det, rc = ctx._c05_lbsearch
+        ctx.violation("%s; the lower bound exceeds the exact distance on the real code: %r" % (what, det), rc, found_input=True,
+                      correspondence=corr, detail=det)
+        return True
     c = {"correspondence": corr}
     c.update(case)
     if extra:
@@ -500,13 +601,13 @@ def run(ctx):
     degenerate_orders(ctx, b)
     b.flush(ctx)
     ctx.extra["branch_hits"] = cov.summary()
-    if found_any(ctx):
-        return
-    oracle_stream(ctx)
-    feas_exhaustive(ctx)
-    large_graph_probe(ctx)
-    iso_midsize(ctx)
-    oracle_midsize(ctx)
+    secs = ctx.extra.setdefault("stream_seconds", {"correspondence": round(ctx.elapsed(), 1)})
+    for stream in (oracle_stream, onto_stream, feas_exhaustive, large_graph_probe, iso_midsize, oracle_midsize):
+        if found_any(ctx):
+            return
+        t0 = ctx.elapsed()
+        stream(ctx)
+        secs[stream.__name__] = round(ctx.elapsed() - t0, 1)
 
 
 def one_pair(ctx, b, kind, A, B, iso):
@@ -515,6 +616,8 @@ def one_pair(ctx, b, kind, A, B, iso):
         _one_pair(ctx, b, kind, A, B, iso)
     except common.HarnessError:
         raise
+    except HelperRaised as e:
+        code_raised(ctx, e.fn, e.kind, A, B, iso)
     except (ArithmeticError, IndexError, ValueError, TypeError, AttributeError, StopIteration) as e:
         import traceback
         tb = traceback.extract_tb(e.__traceback__)
@@ -550,14 +653,17 @@ def _one_pair(ctx, b, kind, A, B, iso):
         st, lb, _ = call(g.find_lb, DX, DY)
     if st == "err":
         return code_raised(ctx, "find_lb", lb, A, B, iso)
-    lb = int(lb)
+    try:
+        lb = int(lb)
+    except (TypeError, ValueError):
+        return convention_break(ctx, "find_lb(DX, DY) returns %r, not one integer" % (lb,), "mgh.call:find_lb", A, B, iso, base=base)
 
     def c_lb(ans, lb=lb):
         ctx.case(dict(base, op="find_lb"), nontriv, sample_every=211)
         if iso:
             ctx.test("iso_lb_zero(real code)", lb == 0)
             if lb != 0:
-                ctx.violation("isomorphic graphs received lower bound %s/2" % lb, dict(base, op="iso"), found_input=True)
+                iso_lb_nonzero(ctx, "find_lb = %s" % lb, A, B)
         if nat(ans) != lb:
             search_failing_input(ctx, "find_lb: code=%s model=%s" % (lb, ans), dict(base, op="find_lb", code=lb, model=str(ans)),
                                  "mgh.lb", A, B)
@@ -567,8 +673,7 @@ def _one_pair(ctx, b, kind, A, B, iso):
     diam = int(DX.max())
     if diam >= 1 and r.random() < 0.7:
         d = r.randint(1, diam)
-        with np.errstate(all="ignore"):
-            K = g.find_largest_size_bounded_curvature(DX, DX.max(), DX.dtype.type(d))
+        K = priv(g.find_largest_size_bounded_curvature, DX, DX.max(), DX.dtype.type(d))
 
         def c_curv(ans, K=K, d=d, DX=DX):
             ctx.case(dict(base, op="curvature", d=d), nontriv, sample_every=0)
@@ -580,7 +685,7 @@ def _one_pair(ctx, b, kind, A, B, iso):
                                      % (d, L(K), Km, idx), dict(base, op="curvature", d=d), "mgh.curv", A, B)
         b.add("mgh.curv %s %d" % (eDX, d), c_curv)
         maxd = max(int(DX.max()), int(DY.max()))
-        dists = g.represent_distance_matrix_rows_as_distributions(DX, max(DX.max(), DY.max()))
+        dists = priv(g.represent_distance_matrix_rows_as_distributions, DX, max(DX.max(), DY.max()))
 
         def c_dists(ans, dists=dists):
             ctx.case(dict(base, op="distributions"), nontriv, sample_every=0)
@@ -588,7 +693,7 @@ def _one_pair(ctx, b, kind, A, B, iso):
                 search_failing_input(ctx, "rows-as-distributions: code=%s model=%s" % (L(dists), ans),
                                      dict(base, op="distributions"), "mgh.dists", A, B)
         b.add("mgh.dists %s %d" % (eDX, maxd), c_dists)
-        um = g.find_unique_max_distributions(dists)
+        um = priv(g.find_unique_max_distributions, dists)
 
         def c_um(ans, um=um):
             ctx.case(dict(base, op="unique_max"), nontriv, sample_every=0)
@@ -596,9 +701,9 @@ def _one_pair(ctx, b, kind, A, B, iso):
                 search_failing_input(ctx, "find_unique_max_distributions: code=%s model=%s" % (L(um), ans),
                                      dict(base, op="unique_max"), "mgh.umax", A, B)
         b.add("mgh.umax %s" % enc(L(dists)), c_um)
-        dY = g.represent_distance_matrix_rows_as_distributions(DY, max(DX.max(), DY.max()))
+        dY = priv(g.represent_distance_matrix_rows_as_distributions, DY, max(DX.max(), DY.max()))
         v, u = um[r.randrange(len(um))], dY[r.randrange(len(dY))]
-        fe = bool(g.check_assignment_feasibility(v, u, d))
+        fe = bool(priv(g.check_assignment_feasibility, v, u, d))
 
         def c_fe(ans, v=v, u=u, d=d, fe=fe):
             ctx.case(dict(base, op="feasibility", d=d), nontriv, sample_every=0)
@@ -612,7 +717,11 @@ def _one_pair(ctx, b, kind, A, B, iso):
         dr = new_draws(ctx)
         with dr:
             pi = dr._perm(n)
-            imgs, dist = g.construct_mapping(DX, DY, pi)
+            imgs, dist = priv(g.construct_mapping, DX, DY, pi)
+        if dr.unmodelled or len(dr.loose["y0s"]) != 1:
+            convention_break(ctx, "construct_mapping draws its first image by %s, not by one np.random.choice(|Y|)"
+                             % (dr.unmodelled[:1] or "%d calls of np.random.choice" % len(dr.loose["y0s"])), "mgh.rng", A, B, iso, base=base)
+            break
         y0 = dr.loose["y0s"][0]
         imgs = [int(x) for x in imgs]; dist = int(dist)
         pil = [int(x) for x in pi]
@@ -643,8 +752,14 @@ def _one_pair(ctx, b, kind, A, B, iso):
         st, ub1, _ = call(g.find_ub_of_min_distortion, DX, DY, mapping_sample_size_order=np.array(order), goal_distortion=goal)
     if st == "err":
         return code_raised(ctx, "find_ub_of_min_distortion", ub1, A, B, iso, order)
-    ub1 = int(ub1)
-    check_draws(ctx, dr, base)
+    if not check_draws(ctx, dr, base):
+        return convention_break(ctx, "find_ub_of_min_distortion draws by %s, which the model does not transcribe" % dr.unmodelled[0],
+                                "mgh.rng", A, B, iso, order, base=base)
+    try:
+        ub1 = int(ub1)
+    except (TypeError, ValueError):
+        return convention_break(ctx, "find_ub_of_min_distortion(DX, DY, ...) returns %r, not one integer" % (ub1,),
+                                "mgh.call:find_ub_of_min_distortion", A, B, iso, order, base=base)
     c0 = dr.calls[0]
 
     def c_ubmin(ans, c0=c0, ub1=ub1, goal=goal, order=order):
@@ -669,9 +784,14 @@ def _one_pair(ctx, b, kind, A, B, iso):
             st, v, _ = call(g.gromov_hausdorff, np.array(A), np.array(B), mapping_sample_size_order=np.array(order))
     if st == "err":
         return code_raised(ctx, "find_ub/estimate/gromov_hausdorff", v, A, B, iso, order)
-    check_draws(ctx, dr, base)
+    if not check_draws(ctx, dr, base):
+        return convention_break(ctx, "the upper-bound heuristic draws by %s, which the model does not transcribe" % dr.unmodelled[0],
+                                "mgh.rng", A, B, iso, order, base=base)
     if len(dr.calls) != 2:
-        raise common.HarnessError("expected two find_ub_of_min_distortion calls, saw %d" % len(dr.calls))
+        # the model transcribes find_ub as one X->Y and one Y->X call of find_ub_of_min_distortion; another call structure is not
+        # fixed by the property (a sound shortcut is legitimate): judge the returned bounds on the public entry point
+        return convention_break(ctx, "find_ub made %d calls of find_ub_of_min_distortion (the model: X->Y then Y->X)" % len(dr.calls),
+                                "mgh.ubcalls", A, B, iso, order, base=base)
     c1, c2 = dr.calls
     args = "%s %s %s %s" % (enc(c1["perms"]), enc(c1["y0s"]), enc(c2["perms"]), enc(c2["y0s"]))
     if which < 0.35:
@@ -735,9 +855,11 @@ def degenerate_orders(ctx, b):
 
 
 def check_draws(ctx, dr, base):
+    """False when the code drew in a way the model has no counterpart for (the caller reports a correspondence break)"""
     if dr.bad:
         raise common.HarnessError("np.random contract broken: %r" % dr.bad[:3])
     ctx.count("rng:" + dr.mode)
+    return not dr.unmodelled
 
 
 def draws_consistent(c, order, matched):
@@ -764,7 +886,10 @@ def feas_stream(ctx, b):
         p = r.randint(0, 7); q = p + r.randint(0, 3) if r.random() < 0.8 else r.randint(0, 9)
         v, u = gen_distribution(r, md, p), gen_distribution(r, md, q)
         d = r.randint(1, md + 1)
-        fe = bool(g.check_assignment_feasibility(np.array(v, dtype=np.int8), np.array(u, dtype=np.int8), d))
+        try:
+            fe = bool(priv(g.check_assignment_feasibility, np.array(v, dtype=np.int8), np.array(u, dtype=np.int8), d))
+        except HelperRaised as e:
+            return feas_unusable(ctx, e, v, u, d)
 
         def c(ans, v=v, u=u, d=d, fe=fe):
             ctx.case({"op": "feasibility", "v": v, "u": u, "d": d}, sum(v) >= 2, sample_every=239)
@@ -783,6 +908,15 @@ def feas_stream(ctx, b):
             if not ok:
                 feas_failure(ctx, v, u, d, fe, ans)
         b.add("mgh.feas.exh %s %s %d" % (enc(v), enc(u), d), ce)
+
+
+def feas_unusable(ctx, e, v, u, d):
+    """check_assignment_feasibility (private) cannot be called as (v, u, d) any more: a correspondence break, reported once, with the
+    failing-input search on the public entry point; the direct feasibility streams are skipped"""
+    if not ctx.__dict__.get("_c05_feas_unusable"):
+        ctx._c05_feas_unusable = True
+        search_failing_input(ctx, "check_assignment_feasibility(%s,%s,%d), called directly with the harness's own convention, raised %s"
+                             % (list(v), list(u), d, e.kind), {"op": "feasibility", "v": list(v), "u": list(u), "d": d}, "mgh.call:check_assignment_feasibility")
 
 
 def assignable_brute_py(v, u, d):
@@ -843,7 +977,10 @@ def feas_exhaustive(ctx):
     answers = ask(lines)
     bad = 0
     for (v, u, d), a in zip(cases, answers):
-        fe = bool(g.check_assignment_feasibility(np.array(v, dtype=np.int8), np.array(u, dtype=np.int8), d))
+        try:
+            fe = bool(priv(g.check_assignment_feasibility, np.array(v, dtype=np.int8), np.array(u, dtype=np.int8), d))
+        except HelperRaised as e:
+            return feas_unusable(ctx, e, v, u, d)
         ok = a == fe
         ctx.test("greedy_feasibility_vs_exhaustive(enumerated)", ok)
         if not ok:
@@ -911,6 +1048,39 @@ def oracle_stream(ctx):
                 return
 
 
+def onto_stream(ctx):
+    """[T] the UPPER bound against the exact distance where the two directions differ most: |X| >= |Y|, X dense / of small diameter
+    (clique, complete bipartite, star, dense G(n,p), lollipop), Y long and thin (path, cycle, tree, broom) in its NATURAL labelling or
+    a relabelling, so that a cheap X->Y map exists (collapse X onto a few low-numbered neighbouring vertices of Y: distortion about
+    diam X) while every Y->X map is expensive (distortion about diam Y - diam X).  upper >= mGH then hinges on the Y->X half of
+    find_ub: an upper bound taken from one direction only, or a shortcut that skips the other direction when the sampled map
+    'looks onto', shows here.  Both argument orders, every order in ORDERS, several generator seeds; exact oracle (exhaustive up to
+    6 vertices, constraint search up to EXACT_MAX)."""
+    r = ctx.rng
+    for i in range(ctx.n(260, 2600)):
+        m = r.randint(3, 7)
+        n = r.randint(m, min(EXACT_MAX, m + 3))
+        _, X = gen_graph(r, n, r.choice(["clique", "clique", "clique", "bip", "star", "lolli"]))
+        if r.random() < 0.3:
+            X = adj_from_edges(n, [(a, b) for a in range(n) for b in range(a) if r.random() < 0.8] + [(0, a) for a in range(1, n)])
+        _, Y = gen_graph(r, m, r.choice(["path", "path", "cycle", "tree", "lolli", "grid"]))
+        if r.random() < 0.35:
+            Y = relabel(r, Y)
+        if r.random() < 0.5:
+            X = relabel(r, X)
+        A, B = (X, Y) if r.random() < 0.7 else (Y, X)
+        order, s = r.choice(ORDERS), r.randrange(2 ** 31)
+        ok, det, case = judge_public(A, B, order, s)
+        ctx.test("ub>=mGH>=lb where the two directions differ (real code vs exact oracle, |X|>=|Y|)", ok)
+        ctx.count("onto_stream:n=%d" % max(len(A), len(B)))
+        if det.get("lb") is not None and isinstance(det.get("mGH"), float):
+            ctx.count("onto_stream:" + ("tight" if det["lb"] == det["mGH"] == det["ub"] else "strict_gap"))
+        if not ok:
+            ctx.violation("the mGH estimates do not bracket the exact distance of a dense graph on %d and a thin graph on %d vertices: %r"
+                          % (len(X), len(Y), det), case, found_input=True, detail=det)
+            return
+
+
 def oracle_midsize(ctx):
     """[T] the bracket on the real code against the EXACT 2*mGH of graphs with 7-10 vertices (constraint search
     `mgh2_exact`, cross-validated against the exhaustive enumeration on every small case of this run): the sizes at
@@ -967,6 +1137,7 @@ def iso_midsize(ctx):
     if found_any(ctx):
         return
     g, r = G(), ctx.rng
+    fallback = False
     for _ in range(ctx.n(2500, 25000)):
         n = r.randint(10, 15)
         kind = r.choice(["tree", "tree", "tree", "gnp", "spider"])
@@ -982,14 +1153,26 @@ def iso_midsize(ctx):
             kind, A = gen_graph(r, n, kind)
         B = relabel(r, A)
         DX, DY = metric(A), metric(B)
-        st, lb, _ = call(g.find_lb, DX, DY)
-        ok = st == "ok" and float(lb) == 0.0
-        ctx.test("iso_lb_zero_midsize(real code)", ok)
         ctx.count("iso_midsize:" + kind)
-        if not ok:
-            ctx.violation("isomorphic %d-vertex graphs received lower bound %s/2 (must be 0)" % (n, lb if st == "ok" else "raised " + str(lb)),
-                          {"AG": np.asarray(A).tolist(), "AH": np.asarray(B).tolist(), "order": [0.0, 0.0], "np_seed": 0, "iso": True, "op": "iso"},
-                          found_input=True)
+        if not fallback:
+            st, lb, _ = call(g.find_lb, DX, DY)
+            try:
+                ok = st == "ok" and float(lb) == 0.0
+            except (TypeError, ValueError):
+                ok = False
+            if ok:
+                ctx.test("iso_lb_zero_midsize(real code)", True)
+                continue
+            # find_lb is private and called here with the harness's convention: confirm on gromov_hausdorff before claiming
+            if iso_lb_nonzero(ctx, "find_lb = %s" % (lb if st == "ok" else "raised " + str(lb)), A, B):
+                ctx.test("iso_lb_zero_midsize(real code)", False)
+                return
+            fallback = True     # the private route is unusable on this tree: the clause goes through the public entry point from here on
+            continue
+        okp, det, case = judge_public(A, B, (0.0, 0.0), 0, iso=True)
+        ctx.test("iso_lb_zero_midsize(real code)", okp)
+        if not okp:
+            ctx.violation("isomorphic %d-vertex graphs do not receive lower bound 0: %r" % (n, det), case, found_input=True, detail=det)
             return
 
 
@@ -1005,7 +1188,7 @@ def large_graph_probe(ctx):
     np.random.seed(0)
     with np.errstate(all="ignore"):
         st, v, _ = call(g.gromov_hausdorff, A, relabel(ctx.rng, A), mapping_sample_size_order=np.array([0.0, 0.0]))
-    entries = [(k, t) for k, t in common.known_findings("C05") if FINDING_SITE in t or "int8" in t]
+    entries = [(k, t) for k, t in common.known_findings("C05") if FINDING_SITE in t]
     rec = {"input": "star on 128 vertices vs a relabelling of itself", "outcome": ("err:" + v) if st == "err" else [float(v[0]), float(v[1])],
            "disposition": [k for k, _ in entries] or "none recorded in known_findings.txt"}
     ctx.extra["large_graph_probe"] = rec
@@ -1039,10 +1222,10 @@ def replay(ctx, rep):
         st, v, _ = call(G().gromov_hausdorff, A, A, mapping_sample_size_order=np.array([0.0, 0.0]))
         print("gromov_hausdorff(star(%d), star(%d)):" % (c["n"], c["n"]), st, v)
         return st == "ok" and float(v[0]) == 0.0 and half_integral(v[1])
-    if c.get("op") == "iso":
-        lb = int(G().find_lb(metric(np.array(c["AG"])), metric(np.array(c["AH"]))))
-        print("find_lb on an isomorphic pair:", lb)
-        return lb == 0
+    if c.get("op") == "iso":                      # records written before the confirmation went through the public entry point
+        ok, det, _ = judge_public(np.array(c["AG"]), np.array(c["AH"]), (0.0, 0.0), 0, iso=True)
+        print("gromov_hausdorff on an isomorphic pair:", det)
+        return ok
     print("correspondence replay (no failing input was found): re-run `VERIF_SEED=%s ./check.py C05 --tier %s`; case: %s"
           % (rep.get("seed"), rep.get("tier"), str(c)[:1500]))
     from types import SimpleNamespace
@@ -1053,7 +1236,12 @@ def replay(ctx, rep):
         b.flush(ctx)
     elif c.get("op") == "feasibility":
         v, u, d = c["v"], c["u"], c["d"]
-        fe = bool(G().check_assignment_feasibility(np.array(v, dtype=np.int8), np.array(u, dtype=np.int8), d))
+        try:
+            fe = bool(priv(G().check_assignment_feasibility, np.array(v, dtype=np.int8), np.array(u, dtype=np.int8), d))
+        except HelperRaised as e:
+            print("check_assignment_feasibility (private) is not callable as (v, u, d) on this tree: %s; nothing about the property "
+                  "is decided by this record" % e)
+            return True
         a = ask(["mgh.feas %s %s %d" % (enc(v), enc(u), d), "mgh.feas.exh %s %s %d" % (enc(v), enc(u), d)])
         print("code:", fe, "model:", a[0], "exhaustive:", a[1])
         return fe == a[0] == a[1]
@@ -1078,13 +1266,21 @@ MANIFEST = {
             "is called directly on BFS metrics of generated connected graphs (up to 200 vertices) with all np.random draws recorded "
             "and replayed into the model, integer outputs compared exactly (find_lb, the curvature submatrix, distributions, unique "
             "maxima, feasibility, construct_mapping, find_ub_of_min_distortion incl. the number of mappings built and permutations "
-            "drawn, find_ub, estimate, gromov_hausdorff); an exception of the real code on such inputs is reported as a failing input.",
+            "drawn, find_ub, estimate, gromov_hausdorff). The property observes the public gromov_hausdorff only: when a private helper "
+            "called with the harness's convention raises / returns another shape, or the code's internal calls and np.random draws are not "
+            "the ones the model transcribes, the bracket is evaluated on the public entry point against an exact oracle (exhaustive <= 6 "
+            "vertices, constraint search <= 9, 0 for isomorphic pairs) and only a failure there is claimed as a failing input; otherwise "
+            "it is a correspondence break (no-failing-input-found). An exception of gromov_hausdorff itself on two connected graphs is a "
+            "failing input.",
     "note": "Trusted: Lean kernel + Mathlib, axioms propext/Classical.choice/Quot.sound; the correspondence harness and its RNG capture; "
             "NumPy semantics transcribed in the model (argmin = first minimum, np.unique(axis=0), np.delete, masked sums); exact "
             "(non-wrapping) integer arithmetic in the code, which is what the repair a42e80a establishes and the graphs with 66..200 "
             "vertices exercise; np.random.permutation/choice contracts (checked on every recorded draw). [T] only: the "
             "bracket, half-integrality and iso-lb-0 evaluated on the real code against the exhaustive 2*mGH for |X|,|Y| <= 6 (Lean "
-            "`mgh.spec`, proved equal to the specification and cross-checked with an independent NumPy brute force), and the greedy "
+            "`mgh.spec`, proved equal to the specification and cross-checked with an independent NumPy brute force) and against the exact "
+            "constraint search `mgh2_exact` (cross-checked with the brute force on small cases of every run) for 5..12 vertices, for dense-"
+            "against-thin pairs with |X| >= |Y| up to 9 vertices, and for the 7-8-vertex candidates of the wide lower-bound search (the "
+            "oracle's name is stored in the replay case and re-evaluated by replay); and the greedy "
             "feasibility against exhaustive injection search on all small distributions (thorough: max_d <= 5, |v| <= 6, |u| <= 7; the "
             "injection-search oracle is cross-checked with a Python matching). Graph-format handling in front of estimate() is C17.",
     "technique": "Lean 4 theorems over a hand-written model with the RNG as an explicit input + differential correspondence "
